@@ -33,6 +33,11 @@ def Kind.lower : Kind → String
 def Kind.name : Kind → String
   | .F2 => "F2" | .FL => "FL" | .F3 => "F3" | .g1 => "g1" | .gL => "gL" | .g4 => "g4"
 
+/-- the classes `asy/kernels.py` looks up by a computed name (`"Asy" + "N"*res + "LL" + channel`) -/
+def asyLogClasses : List String :=
+  ["NonSinglet", "Gluon", "Singlet"].flatMap fun ch =>
+    ["AsyLL" ++ ch, "AsyNLL" ++ ch, "AsyNNLL" ++ ch, "AsyNNNLL" ++ ch]
+
 /-- `import_local` + class lookup + construction of orders `0..pto` for one kernel -/
 def chanOutcome (tab : ModuleTable) (kind : Kind) (isCC : Bool) (pto : Nat) (c : ChanId) : Outcome :=
   let proc := if isCC then "cc" else "nc"
@@ -43,6 +48,9 @@ def chanOutcome (tab : ModuleTable) (kind : Kind) (isCC : Bool) (pto : Nat) (c :
     match classes.find? (fun cl => cl.1 == c.cls) with
     | none =>
       if c.cls == "QuarkFL11" || c.cls == "GluonFL11" then .rejected "N3LO is not available"
+      else if c.family == "asy" && asyLogClasses.contains c.cls then
+        -- `asy.kernels.asy_class`: a logarithmic accuracy that the module does not provide
+        .rejected s!"'{c.cls}' is not available"
       else .internal s!"AttributeError {c.family}.{c.cls}"
     | some (_, orders) =>
       if (List.range (pto + 1)).any (fun o => orders.getD o "none" == "err") then
